@@ -354,9 +354,9 @@ func c19Adjust(p *ana.Prog, r *ana.Result, fn *ssa.Function, adj *ssa.Call) {
 		if dph != nil && dph.Block() == pph.Block() {
 			de = dph.Edges[i]
 		}
-		if de == nil || !clampedBoth(e, de) {
+		if de == nil || !(clampedBoth(e, de) || slewBounded(e, de, pph.Block().Preds[i], pph.Block())) {
 			bad++
-			r.Violate("C19.adjust", fname, fmt.Sprintf("slew-bound:arm%d", i), posOf(p, adj), "on the tracking arm the slew p is not clamped on both sides to +-d*500e-6 (d = math.Ceil(dt)) before it is handed to Adjust: more than 500 ppm of the elapsed time can be slewed per update")
+			r.Violate("C19.adjust", fname, fmt.Sprintf("slew-bound:arm%d", i), posOf(p, adj), "on the tracking arm the slew p ("+ana.ValueString(e)+") is not clamped on both sides to +-d*500e-6 (d = math.Ceil(dt)) before it is handed to Adjust: more than 500 ppm of the elapsed time can be slewed per update")
 			continue
 		}
 		nClamped++
@@ -443,4 +443,122 @@ func clampedBothN(v ssa.Value, d ssa.Value, depth int) bool {
 	}
 	c, pos, isCmp := ana.AsCmpDir(iff.Cond, token.LSS)
 	return isCmp && pos && c.Op == token.LSS && c.X == ssa.Value(ph) && isCeilTimes(c.Y, d, -0.0005)
+}
+
+// slewBounded: the value v, as it arrives at the end of block at, lies within [-L, +L] with
+// L = d*500e-6 and d = math.Ceil(dt): decided by following v through merges, min/max and the
+// comparisons with +-L that dominate each incoming edge - however the clamp is spelled (two ifs,
+// if/else-if, min/max, a limit held in a variable, negated limit).
+func slewBounded(v ssa.Value, d ssa.Value, at, to *ssa.BasicBlock) bool {
+	isL := func(x ssa.Value) bool { return isCeilTimes(x, d, 0.0005) }
+	isNegL := func(x ssa.Value) bool {
+		if isCeilTimes(x, d, -0.0005) {
+			return true
+		}
+		if u, ok := x.(*ssa.UnOp); ok && u.Op == token.SUB && isL(u.X) {
+			return true
+		}
+		return false
+	}
+	// knownOnWayTo: a comparison of x with the limit that holds whenever the end of block blk is reached
+	knownOnWayTo := func(x ssa.Value, blk, to *ssa.BasicBlock, upper bool) bool {
+		fn := blk.Parent()
+		for _, g := range fn.Blocks {
+			if len(g.Instrs) == 0 {
+				continue
+			}
+			iff, ok := g.Instrs[len(g.Instrs)-1].(*ssa.If)
+			if !ok {
+				continue
+			}
+			for si, s := range g.Succs {
+				onEdge := g == blk && s == to // the very edge along which the value arrives
+				if !onEdge && !(len(s.Preds) == 1 && (s == blk || s.Dominates(blk))) {
+					continue
+				}
+				for _, a := range ana.Implied(iff.Cond, si == 0) {
+					cmp, pos, ok := ana.AsCmp(a.V)
+					if !ok {
+						continue
+					}
+					truth := a.Holds == pos
+					for _, c := range []ana.Cmp{cmp, cmp.Mirror()} {
+						if c.X != x {
+							continue
+						}
+						op := c.Op
+						if !truth {
+							op = ana.NegOp(op)
+						}
+						if upper && isL(c.Y) && (op == token.LEQ || op == token.LSS) {
+							return true
+						}
+						if !upper && isNegL(c.Y) && (op == token.GEQ || op == token.GTR) {
+							return true
+						}
+					}
+				}
+			}
+		}
+		return false
+	}
+	var bounded func(x ssa.Value, blk, to *ssa.BasicBlock, upper bool, depth int) bool
+	bounded = func(x ssa.Value, blk, to *ssa.BasicBlock, upper bool, depth int) bool {
+		if depth > 6 {
+			return false
+		}
+		if isL(x) || isNegL(x) {
+			return true // -L <= +L because d = Ceil(dt) of a non-negative dt
+		}
+		if f, ok := constFloatOf(x); ok && f == 0 {
+			return true
+		}
+		if c, _ := ana.CallOf(x); c != nil {
+			switch ana.CalleeName(c.Common()) {
+			case "builtin.min":
+				if upper {
+					for _, a := range c.Common().Args {
+						if bounded(a, blk, to, upper, depth+1) {
+							return true
+						}
+					}
+					return false
+				}
+				for _, a := range c.Common().Args {
+					if !bounded(a, blk, to, upper, depth+1) {
+						return false
+					}
+				}
+				return true
+			case "builtin.max":
+				if !upper {
+					for _, a := range c.Common().Args {
+						if bounded(a, blk, to, upper, depth+1) {
+							return true
+						}
+					}
+					return false
+				}
+				for _, a := range c.Common().Args {
+					if !bounded(a, blk, to, upper, depth+1) {
+						return false
+					}
+				}
+				return true
+			}
+		}
+		if knownOnWayTo(x, blk, to, upper) {
+			return true
+		}
+		if ph, ok := x.(*ssa.Phi); ok {
+			for i, e := range ph.Edges {
+				if e == x || !bounded(e, ph.Block().Preds[i], ph.Block(), upper, depth+1) {
+					return false
+				}
+			}
+			return true
+		}
+		return false
+	}
+	return bounded(v, at, to, true, 0) && bounded(v, at, to, false, 0)
 }
